@@ -74,6 +74,7 @@ def cases(draw, tier="quick"):
             case["q"] = draw(st.sampled_from(QS))
         else:
             case["q"] = draw(st.lists(st.sampled_from(QS), min_size=1, max_size=4))
+            case["q_as"] = draw(st.sampled_from(["list", "tuple", "ndarray"]))
     case["engine"] = draw(st.sampled_from(["flox", "flox", "numpy", None, None]))
     # chunking
     labs = lab["spec"]["v"]
@@ -178,6 +179,10 @@ def execute(case) -> Outcome:
     by = dec(case["by"])
     func = case["func"]
     kw = reduce_kwargs(case)
+    if case.get("q_as") == "tuple":
+        kw["finalize_kwargs"]["q"] = tuple(kw["finalize_kwargs"]["q"])
+    elif case.get("q_as") == "ndarray":
+        kw["finalize_kwargs"]["q"] = np.asarray(kw["finalize_kwargs"]["q"], dtype=float)
     engine = case.get("engine")
     q = None
     if case.get("q") is not None:
